@@ -18,6 +18,7 @@ RULE = (
     "x linear data with the linear dimension at every position.  Reference = numpy.moveaxis + reshape.  "
     "Non-trivial: permutations where the grid dimensions are not the trailing dimensions in "
     "convention order, non-default kinds, name collisions."
+    ' Also: slices of dataset variables (extra dimensions named like dataset dimensions but of another length) and datasets with reversed dimension declaration.'
 )
 LEVEL_TEXT = ('every permutation of 0..3 extra dimensions with the grid dimensions of every grid kind, every wind mode (default/axis/name) and linear-dimension naming case, both round-trip directions, against numpy.moveaxis+reshape')
 LEVEL_NOTE = ('numpy/xarray transposition semantics; names colliding with a remaining dimension may be refused')
